@@ -17,6 +17,7 @@ from lib import PropertyCheck, Violation, enc, dec, txt
 import c03_minipy as mp
 import c03_gen as gen
 
+ORACLE_STAT: Dict[str, int] = {}
 FK = ['FUNCTION', 'METHOD', 'CLASS_METHOD', 'STATIC_METHOD']
 AK = ['VARIABLE', 'CLASS_VARIABLE', 'INSTANCE_VARIABLE', 'CONSTANT', 'PROPERTY']
 NEW_EXC = {'ExceptionGroup', 'BaseExceptionGroup', 'EncodingWarning'}
@@ -245,7 +246,10 @@ def oracle_ns(path: str, doc: List[Dict[str, Any]], py: List[Dict[str, Any]], in
         rec('twice', '?', [e['n'] for e in doc], None)
     # docstrings of variables: against the generator's ground truth (see attr_doc_truth)
     want_docs = ctx['attr_truth'].get(rel, {})
-    if not ns_tainted(rel, ctx['attr_taint']) and all(n in d and d[n]['t'] == 'A' for n in want_docs):
+    judged = not ns_tainted(rel, ctx['attr_taint']) and all(n in d and d[n]['t'] == 'A' for n in want_docs)
+    ctx['stat']['attrdoc_ns_judged' if judged else 'attrdoc_ns_unjudged'] = ctx['stat'].get('attrdoc_ns_judged' if judged else 'attrdoc_ns_unjudged', 0) + 1
+    if judged:
+        ctx['stat']['attrdoc_vars_with_doc'] = ctx['stat'].get('attrdoc_vars_with_doc', 0) + len(want_docs)
         for e in doc:
             if e['t'] == 'A' and e['k'] != 'PROPERTY' and e['doc'] != want_docs.get(e['n']):
                 rec('variable-docstring', e['n'], e['doc'], {'generator ground truth': want_docs.get(e['n'])})
@@ -296,7 +300,7 @@ def oracle_module(fullname: str, body: List[Any], doc_mod: Dict[str, Any], py_mo
     out: List[Dict[str, Any]] = []
     truth, taint = attr_doc_truth(body)
     ctx = {'annotated': annotated_names(body), 'strings': all_strings(body), 'tuple_targets': tuple_target_names(body),
-           'attr_truth': truth, 'attr_taint': taint}
+           'attr_truth': truth, 'attr_taint': taint, 'stat': ORACLE_STAT}
     if doc_mod['doc'] != py_mod['doc']:
         out.append({'ns': fullname, 'name': '', 'what': 'docstring', 'pydoctor': doc_mod['doc'], 'cpython': py_mod['doc'], 'class': None})
     oracle_ns(fullname, doc_mod['c'], py_mod['ns'], False, ctx, out)
@@ -701,6 +705,7 @@ class Check(PropertyCheck):
         self.stats['py_exec_acceptance'] = round(acc / max(1, acc + rej), 3)
         if self.stats.get('oracle_modules', 0) < 200:
             raise RuntimeError('broken check: the oracle was applied to only %d modules' % self.stats.get('oracle_modules', 0))
+        self.stats.update(ORACLE_STAT)
         self.stats['distinct_nontrivial'] = len(self.nontrivial)
         self.nontrivial = set(range(len(self.nontrivial)))      # keep evidence small
         # shrink the smallest oracle failures that are not known findings (the driver reports at most three)
